@@ -5,7 +5,7 @@ import ClientGoVerif.Proofs.LatchWait
 namespace CGV.Latch
 open CGV
 
-theorem Inv2.eff {cfg : Cfg} {s s' : State} (h1 : Inv1 cfg s) (h2 : Inv2 cfg s) (e : Eff cfg s s') : Inv2 cfg s' :=
+theorem Inv2.eff {cfg : Cfg} {s s' : State} (h1 : Inv1 cfg s) (h2 : Inv2 cfg s) {o : Option LockId} (e : Eff cfg s o s') : Inv2 cfg s' :=
   ⟨wok_eff h1 h2.wok e, wake_eff h1 h2 e⟩
 
 theorem Reachable.inv12 {cfg : Cfg} {s : State} (h : Reachable cfg s) : Inv1 cfg s ∧ Inv2 cfg s := by
